@@ -49,6 +49,9 @@ type ecaseJSON struct {
 	UpstreamDown bool   `json:"upstream_down,omitempty"` // the upstream proxy's port refuses connections
 	SlowConnect  bool   `json:"slow_connect,omitempty"`  // also wait for the 60 s CONNECT timeout against a silent upstream (thorough)
 	OneP         bool   `json:"gomaxprocs_1,omitempty"`  // run the binary with GOMAXPROCS=1
+	// spelling of the scheme of the inline MITM key material ("" = "data:"); a spelling the reader does not
+	// accept makes the process refuse to start, which is fine; one it accepts must be redacted
+	DataScheme string `json:"data_scheme,omitempty"`
 }
 
 type runReport struct {
@@ -121,6 +124,16 @@ func binaryPlan(r *rng.R, thorough bool) []ecaseJSON {
 		c.UpstreamDown = true
 		p = append(p, c)
 	}
+	// inline key material whose scheme is spelt differently
+	alts := []struct{ scheme, source string }{{"DATA:", "flag"}, {"Data:", "config"}}
+	if thorough {
+		alts = append(alts, struct{ scheme, source string }{"dAtA:", "env"}, struct{ scheme, source string }{"DATA:base64,", "flag"}, struct{ scheme, source string }{"data:base64,", "env"})
+	}
+	for _, a := range alts {
+		c := mk(a.source, "info", "url", "text", false, true)
+		c.DataScheme = a.scheme
+		p = append(p, c)
+	}
 	// a secret the flag refuses (two '@' in --proxy): the process does not start
 	p = append(p, ecaseJSON{Kind: "binary", Class: "rejected", Source: "flag", Level: "info", LogHTTP: "url", Format: "text", Seed: r.U64()})
 	p = append(p, ecaseJSON{Kind: "binary", Class: "rejected", Source: "env", Level: "info", LogHTTP: "url", Format: "text", Seed: r.U64()})
@@ -186,6 +199,13 @@ func dataURI(pemText string) string {
 	return "data:" + base64.StdEncoding.EncodeToString([]byte(pemText))
 }
 
+func dataURIScheme(scheme, pemText string) string {
+	if scheme == "" {
+		scheme = "data:"
+	}
+	return scheme + base64.StdEncoding.EncodeToString([]byte(pemText))
+}
+
 // settings returns the secret-bearing settings of a run and the model's view of the whole configuration.
 func settings(c ecaseJSON, s secretSet, upstream string) (secret []entry) {
 	uh, upt, _ := net.SplitHostPort(upstream)
@@ -204,8 +224,8 @@ func settings(c ecaseJSON, s secretSet, upstream string) (secret []entry) {
 	}
 	if c.MITM {
 		secret = append(secret,
-			entry{"mitm-cacert-file", value{Kind: "b64", Raw: dataURI(s.CAPEM)}},
-			entry{"mitm-cakey-file", value{Kind: "b64", Raw: dataURI(s.KeyPEM)}})
+			entry{"mitm-cacert-file", value{Kind: "b64", Raw: dataURIScheme(c.DataScheme, s.CAPEM)}},
+			entry{"mitm-cakey-file", value{Kind: "b64", Raw: dataURIScheme(c.DataScheme, s.KeyPEM)}})
 	}
 	return
 }
@@ -784,14 +804,22 @@ func runBinaryCase(bin, dir string, idx int, c ecaseJSON) (string, runReport) {
 	for attempt := 0; attempt < 4; attempt++ {
 		pp, ap = freePort(), freePort()
 		oa = runBinary(bin, cdir, c, a, upAddr, pp, ap, "A")
-		if c.Class == "run" && !oa.started {
+		if c.Class == "run" && !oa.started && (c.DataScheme == "" || attempt < 1) {
 			continue
 		}
 		ob = runBinary(bin, cdir, c, b, upAddr, pp, ap, "B")
-		if c.Class == "run" && !ob.started {
+		if c.Class == "run" && !ob.started && c.DataScheme == "" {
 			continue
 		}
 		break
+	}
+	if c.DataScheme != "" && !oa.started && !ob.started {
+		// the reader does not take this spelling for inline data: the value is a file name that does not
+		// exist and the process refuses to start.  Nothing to hold against the redaction here.
+		rep.Ran = true
+		rep.Visible = true
+		rep.Err = "refused to start (spelling not accepted as inline data)"
+		return "{| e_cfg := (@nil (str * value)); e_line := None; e_leaks := 0; e_diffs := 0; e_visible := true; e_ran := true |}", rep
 	}
 	rep.Ran = (oa.started && ob.started) || (c.Class == "rejected" && !oa.started && !ob.started)
 	if !rep.Ran {
